@@ -592,7 +592,8 @@ class Decimal(DataType, dtypes.Decimal):
     """
 
     _exp: decimal.Decimal = dataclasses.field(init=False)
-    _ctx: decimal.Context = dataclasses.field(init=False)
+    # decimal.Context compares by identity and is derived from the fields above
+    _ctx: decimal.Context = dataclasses.field(init=False, compare=False)
 
     def __init__(  # pylint:disable=super-init-not-called
         self,
